@@ -8,7 +8,7 @@ HIST = "stateful property-based testing (proptest): generated operation historie
 TB = "cw-multi-test 0.13.4 simulates the chain; reference arithmetic in Uint256; generated histories are a sample, not an enumeration"
 CLAIMED = {
  "C01": ("exploration", "stateful property-based testing (proptest): generated swap histories against the real vAMM entry points, invariant oracle over the history in 256-bit arithmetic",
-         "generated reserve pairs and swap_input/swap_output histories (incl. return-to-earlier-position swaps) are executed through the vAMM's instantiate/execute/query; scaled product monotonicity, base+net-position conservation and the return clause are recomputed independently after every accepted swap",
+         "generated reserve pairs and swap_input/swap_output histories (incl. return-to-earlier-position swaps) are executed through the vAMM's instantiate/execute/query; scaled product monotonicity, base+net-position conservation and the return clause are recomputed independently after every accepted swap; owner actions and funding settlements between swaps must leave the curve state untouched",
          "mock dependencies stand in for the chain; return clause asserted only while base reserve >= 1 unit (see DESIGN C01)", "DESIGN.md §3 C01"),
  "C02": ("exploration", HIST + "invariant oracle after every transaction",
          "after every transaction of generated multi-trader histories (incl. directed whale trades, squeezes to the maintenance boundary, funding, liquidations) the sum of engine position sizes is compared with the vAMM's net position", TB, "DESIGN.md §3 C02"),
@@ -31,7 +31,7 @@ CLAIMED = {
  "C12": ("exploration", HIST + "reference-model oracle on dispatched fee transfers",
          "fee transfers into fund and fee pool are taken from the instrumented token/bank and compared with floor(n*ratio/D) resp. the vAMM's CalcFee answer", TB, "DESIGN.md §3 C12"),
  "C09": ("exploration", "generated states + exhaustive role matrix per state (every privileged message variant x every sender kind), role-transfer histories, full storage dump comparison",
-         "in every generated deployment state the complete matrix of 26 privileged messages x 9+ senders is executed from one snapshot: non-holders must be refused with the dump unchanged, holders must succeed where only authorisation can fail; repeated after each generated role transfer with holders tracked by the harness", TB + "; matrix enumerated per state, states and transfer histories sampled", "DESIGN.md §3 C09 + Appendix A"),
+         "in every generated deployment state the complete matrix of 26 privileged messages x 9+ senders is executed from one snapshot: non-holders must be refused with the dump unchanged, holders must succeed where only authorisation can fail; repeated after each generated role transfer with holders tracked by the harness; preludes re-point a vAMM's engine / fund setting, whose role holders are then what its owner configured", TB + "; matrix enumerated per state, states and transfer histories sampled", "DESIGN.md §3 C09 + Appendix A"),
  "C13": ("exploration", "differential testing (proptest): twin native / cw20 deployments driven in lock-step, native calls attach what the cw20 twin pulled",
          "the same generated history is applied to twin deployments; outcome, positions, vAMM and engine state and all balance deltas must agree after every operation; fees-from-vault probed by a what-if close with nothing attached; withdrawn cw20 allowances for operations that pull nothing; F6 and F7 repaired, nothing excluded", TB, "DESIGN.md §3 C13"),
  "C14": ("exploration", HIST + "what-if twins (unpaused copy of the same state), blocked-operation table, registry invariants, shutdown post-condition",
@@ -41,11 +41,11 @@ CLAIMED = {
  "C16": ("exploration", HIST + "harness-tracked per-block action sets + what-if twin one block later for bystanders",
          "restricted traders must be refused (state unchanged); bystanders and next-block traders are compared with a twin of the same state one block height later", TB + "; deployments without fluctuation limit so only the restriction depends on height", "DESIGN.md §3 C16"),
  "C17": ("exploration", "stateful property-based testing (proptest): vAMM swap histories with quote-vs-execution and limit twins; engine histories with what-if limit experiments",
-         "quotes are compared with executions at every generated state, limits at executed-1/executed/executed+1 decide accept/refuse exactly; at engine level every open/increase/reduce/whole close is replayed from a snapshot with the limit at and one unit beside the executed amount", "mock dependencies (vAMM level), cw-multi-test (engine level)", "DESIGN.md §3 C17"),
+         "quotes are compared with executions at every generated state, limits at executed-1/executed/executed+1 decide accept/refuse exactly; at engine level every open/increase/reduce/whole close and every whole-position liquidation is replayed from a snapshot with the limit at, one unit beside and far from the executed amount", "mock dependencies (vAMM level), cw-multi-test (engine level)", "DESIGN.md §3 C17"),
  "C18": ("exploration", "property-based testing (proptest): generated block schedules / round sequences vs a reference time-weighted mean and min/max bounds",
          "vAMM TWAP answers are compared with bounds and an independent time-weighted mean over harness-recorded block-final prices; the real price feed's TWAP / latest / n-rounds-back answers are compared with the submitted rounds", "mock dependencies; erroring queries are counted, not judged", "DESIGN.md §3 C18"),
  "C20": ("exploration", HIST + "cap / bound invariants after every step, what-if twin without caps for whitelisted traders",
-         "after every generated config update, whitelist edit, registry change and trade: caps hold for non-whitelisted position-increasing trades, whitelisted traders are not blocked by caps (twin with caps removed), all stored ratios and the TWAP interval stay in range, registered vAMMs share the engine's decimals", TB, "DESIGN.md §3 C20"),
+         "after every generated config update, whitelist edit, registry change and trade: caps hold for non-whitelisted position-increasing trades, whitelisted traders are not blocked by caps (twin with caps removed), all stored ratios and the TWAP interval stay in range, registered vAMMs share the engine's decimals (also for a fund set up before its engine: what-if deployment-order experiment per history)", TB, "DESIGN.md §3 C20"),
  "C19": ("exploration", "property-based testing (proptest): generated operand pairs vs exact 256-bit reference arithmetic",
          "every public operation of Integer is compared with exact sign-magnitude big-integer arithmetic on generated operand pairs biased to zero, equal magnitudes and the 128-bit boundary; the space (2^258 pairs) cannot be enumerated, so this is search, not proof",
          "trusts cosmwasm_std::Uint256 arithmetic used by the reference; values are interpreted as (-1)^negative * value", "DESIGN.md §3 C19"),
